@@ -69,6 +69,7 @@ ASSUMPTIONS = [
     "the source inside a failure record is demanded only when the value entering the failing step carries one (path string, Path, DataMember, dict with 'source', object with .source); the record's identifier is always demanded",
     "resumed apply_to on a store that already holds a not-completed record for an input: skipping it (sqlite: the record is a member) and running it again (directory store) are both accepted; a skipped record must be untouched",
     "a wrong-typed value that the writer can store (anything JSON-able for write_json, anything picklable for write_db) is a completed record, as it is for the chain called alone; one it cannot store must become a not-completed record naming the writer",
+    "direct calls composed(x) are driven with write_db only (write_json/write_seqs return a NotCompleted without storing it, by design); a value or failure that carries no source cannot be filed by the writer and nothing is demanded for it; the value '' is not generated there",
     "result order is not asserted; type of a failure record (ERROR/BUG/...) is demanded only for a NotCompleted that a step itself returned",
 ]
 TIMEOUT = {"quick": 1800, "thorough": 7200}
@@ -290,6 +291,13 @@ def make_workload(rng, n, store=None, entry=None, inputs=None, idfn="random"):
                 W["plan"][W["keys"][i]] = {"mode": m[0], "at": m[1], "variant": "ValueError"}
     else:
         W["plan"] = make_plan(rng, W["keys"], steps, pattern)
+        if W["entry"] == "call":
+            # called directly, the writer derives the identifier from the value; the value "" is its own (empty)
+            # source, write_db then files it under the identifier "" and DataStoreSqlite.write(unique_id="") drops
+            # every not-completed record (reported separately; not a per-record outcome of the property)
+            for p in W["plan"].values():
+                if p["mode"] == "falsy" and p["variant"] == "empty-str":
+                    p["variant"] = "zero"
         W["falsy"] = []
     return W
 
@@ -1110,11 +1118,6 @@ def check_history(res, W, obs, plan, label, prior=None, replay=None):
     res.evals += 1
     known_ids = set(sid.values())
     extra = [r for r in obs["records"] if r["id"] not in known_ids]
-    if W["entry"] == "call" and any(r["id"] == "" for r in extra):
-        # called directly with a value whose only "source" is an empty string, write_db files the failure under the
-        # identifier "": an artefact of a value without source, outside what the property states (observation only)
-        res.count("call:record-under-empty-identifier")
-        extra = [r for r in extra if r["id"] != ""]
     if extra:
         res.witness("C14/conservation/record-without-input", **det(extra=extra[:6]))
     extra_y = [k for k in yields if k not in set(keys)]
